@@ -53,7 +53,7 @@ using namespace gdstk;
 using namespace vf;
 
 static Run* R;
-static std::string F_RAW12, F_RAW3, F_RAW32;
+static std::string F_RAW12, F_RAW3, F_RAW32, F_RAW6;
 
 // ------------------------------------------------------------------------------------ the model
 enum { K_PTR = 0, K_NAME = 1 };
@@ -463,8 +463,13 @@ static std::string rref_str(const World& w, const Reference& r) {
 // ------------------------------------------------------------------------------------ the system
 struct Op { int kind, a, b; };
 enum { RENAME_PTR, RENAME_NAME, REPLACE, REMAP_LIB, REMAP_CELL, COPY_LIB, COPY_CELL, APPEND, REMOVE_CELL, REMOVE_RAW };
-static const char* NEWNAME[3] = {"N1", "N2", "Z"};
-static const char* POOLNAME[4] = {"P(cell 'B')", "Q(cell 'Q', by-name ref to 'Z')", "R3(raw 'R3')", "R2b(raw 'R2')"};
+// init0..5: two interchangeable fresh names and the absent by-name target.  init6 (prefix-related
+// names of different lengths): a strictly shorter name that is a prefix of names in use (and an
+// absent by-name target), a longer name extending an existing one, an unrelated name.
+static const char* NEWNAME_STD[3] = {"N1", "N2", "Z"};
+static const char* NEWNAME_PFX[3] = {"A", "ABCDE", "N1"};
+static const char* POOLNAME_STD[4] = {"P(cell 'B')", "Q(cell 'Q', by-name ref to 'Z')", "R3(raw 'R3')", "R2b(raw 'R2')"};
+static const char* POOLNAME_PFX[4] = {"P(cell 'ABC')", "Q(cell 'A', by-name ref to 'ABX')", "raw 'ABCDE'", "raw 'AB'"};
 static const int MAXC = 5, MAXR = 3;
 
 struct GraphSys {
@@ -495,6 +500,9 @@ struct GraphSys {
         for (int i = 0; i < 2; i++) ops.push_back({REMOVE_RAW, i, 0});
     }
     int nops() { return (int)ops.size(); }
+    const char** NEWNAME_() const { return init == 6 ? NEWNAME_PFX : NEWNAME_STD; }
+    const char** POOLNAME_() const { return init == 6 ? POOLNAME_PFX : POOLNAME_STD; }
+    const char* absent_old_name() const { return init == 6 ? "ABX" : "NOPE"; }  // names no cell: rename_cell(name, n) must do nothing
     static std::string slot_name(int o) {
         if (o < MAXC) return fmt("cell_array[%d]", o);
         if (o < MAXC + MAXR) return fmt("rawcell_array[%d]", o - MAXC);
@@ -503,16 +511,16 @@ struct GraphSys {
     std::string op_name(int i) {
         Op o = ops[i];
         switch (o.kind) {
-            case RENAME_PTR: return fmt("rename_cell(cell_array[%d], \"%s\")", o.a, NEWNAME[o.b]);
+            case RENAME_PTR: return fmt("rename_cell(cell_array[%d], \"%s\")", o.a, NEWNAME_()[o.b]);
             case RENAME_NAME:
-                if (o.a < 2) return fmt("rename_cell(name of cell_array[%d], \"%s\")", o.a, NEWNAME[o.b]);
-                return o.a == 2 ? fmt("rename_cell(name of rawcell_array[0], \"%s\")", NEWNAME[o.b]) : fmt("rename_cell(\"NOPE\", \"%s\")", NEWNAME[o.b]);
-            case REPLACE: return "replace_cell(" + slot_name(o.a) + ", " + POOLNAME[o.b] + ")";
+                if (o.a < 2) return fmt("rename_cell(name of cell_array[%d], \"%s\")", o.a, NEWNAME_()[o.b]);
+                return o.a == 2 ? fmt("rename_cell(name of rawcell_array[0], \"%s\")", NEWNAME_()[o.b]) : fmt("rename_cell(\"%s\", \"%s\")", absent_old_name(), NEWNAME_()[o.b]);
+            case REPLACE: return "replace_cell(" + slot_name(o.a) + ", " + POOLNAME_()[o.b] + ")";
             case REMAP_LIB: return fmt("Library::remap_tags(%s)", o.a ? "{(1,0)->(2,0),(2,0)->(1,0)}" : "{(1,0)->(2,0)}");
             case REMAP_CELL: return fmt("cell_array[%d]->remap_tags(%s)", o.a, o.b ? "{(1,0)->(2,0),(2,0)->(1,0)}" : "{(1,0)->(2,0)}");
             case COPY_LIB: return fmt("Library::copy_from(deep=%d) -> explore the copy", o.a);
             case COPY_CELL: return fmt("Cell::copy_from(cell_array[%d], %s) then replace_cell(original, copy)", o.a, o.b ? "\"K1\", deep" : "NULL, shallow");
-            case APPEND: return std::string(o.a < 2 ? "cell_array.append(" : "rawcell_array.append(") + POOLNAME[o.a] + ")";
+            case APPEND: return std::string(o.a < 2 ? "cell_array.append(" : "rawcell_array.append(") + POOLNAME_()[o.a] + ")";
             case REMOVE_CELL: return fmt("cell_array.remove(%d)", o.a);
             default: return fmt("rawcell_array.remove(%d)", o.a);
         }
@@ -594,18 +602,33 @@ struct GraphSys {
                 add_ref_ptr(w, a, r1);
                 member(a); member(r1); member(r2);
             } break;
+            case 6: {  // prefix-related names of different lengths, by pointer and by name, absent targets "ABX" and "A"
+                int a = new_cell(w, "AB", 0, serial++), b = new_cell(w, "ABC", 1, serial++), c = new_cell(w, "ABCD", 0, serial++);
+                add_ref_ptr(w, a, b); add_ref_name(w, a, "ABCD"); add_ref_name(w, a, "ABX");
+                add_ref_ptr(w, b, c); add_ref_name(w, b, "A"); add_ref_name(w, b, "ABCD");
+                member(a); member(b); member(c);
+            } break;
             default: {  // A -> X -> Y -> W, only A in the library
                 int a = new_cell(w, "A", 0, serial++), x = new_cell(w, "X", 1, serial++), y = new_cell(w, "Y", 0, serial++), v = new_cell(w, "W", 1, serial++);
                 add_ref_ptr(w, a, x); add_ref_ptr(w, x, y); add_ref_ptr(w, y, v);
                 member(a);
             }
         }
-        w.pool[0] = new_cell(w, "B", 0, serial++);
-        w.pool[1] = new_cell(w, "Q", 1, serial++);
-        add_ref_name(w, w.pool[1], "Z");
-        auto ids = load_raws(w, init == 4 ? F_RAW32 : F_RAW3);
-        w.pool[2] = ids["R3"];
-        if (init == 4) w.pool[3] = ids["R2"];
+        if (init == 6) {
+            w.pool[0] = new_cell(w, "ABC", 0, serial++);
+            w.pool[1] = new_cell(w, "A", 1, serial++);
+            add_ref_name(w, w.pool[1], "ABX");
+            auto ids = load_raws(w, F_RAW6);
+            w.pool[2] = ids["ABCDE"];
+            w.pool[3] = ids["AB"];
+        } else {
+            w.pool[0] = new_cell(w, "B", 0, serial++);
+            w.pool[1] = new_cell(w, "Q", 1, serial++);
+            add_ref_name(w, w.pool[1], "Z");
+            auto ids = load_raws(w, init == 4 ? F_RAW32 : F_RAW3);
+            w.pool[2] = ids["R3"];
+            if (init == 4) w.pool[3] = ids["R2"];
+        }
         for (int k = 0; k < 4; k++) w.pool_fresh[k] = w.pool[k] >= 0;
         for (auto& o : w.objs)
             if (!o.raw) {
@@ -683,7 +706,8 @@ struct GraphSys {
     }
     static const char* init_name(int k) {
         static const char* n[] = {"chain A->B->C", "diamond A->B,A->C,B->D,C->D", "A->B by pointer, A->'Z' by name (Z absent)", "A->'B' by name (B present), C->B by pointer",
-                                  "A->raw R1, R1->R2, R2->R4 (read_rawcells; R4 not in the library)", "A->X->Y->W, only A in the library"};
+                                  "A->raw R1, R1->R2, R2->R4 (read_rawcells; R4 not in the library)", "A->X->Y->W, only A in the library",
+                                  "AB->ABC->ABCD by pointer; AB->'ABCD','ABX' and ABC->'A','ABCD' by name (ABX, A absent)"};
         return n[k];
     }
 
@@ -930,16 +954,16 @@ struct GraphSys {
             case RENAME_PTR: {
                 if (op.a >= (int)mc.size()) return false;
                 int c = mc[op.a];
-                std::string n = NEWNAME[op.b];
+                std::string n = NEWNAME_()[op.b];
                 if (w.objs[c].name == n || name_taken(w, n, c)) return false;
                 // symmetry reduction: N1 and N2 are interchangeable fresh names, N2 is offered only while N1 is in use
-                if (op.b == 1 && !name_taken(w, NEWNAME[0], -1)) return false;
+                if (init != 6 && op.b == 1 && !name_taken(w, NEWNAME_()[0], -1)) return false;
                 if (dry) return true;
                 lib->rename_cell((Cell*)w.objs[c].ptr, n.c_str());
                 model_rename(w, c, n);
             } break;
             case RENAME_NAME: {
-                std::string n = NEWNAME[op.b], old;
+                std::string n = NEWNAME_()[op.b], old;
                 int c = -1;
                 if (op.a < 2) {
                     if (op.a >= (int)mc.size()) return false;
@@ -951,7 +975,7 @@ struct GraphSys {
                     old = w.objs[mr[0]].name;  // a raw cell's name: get_cell finds nothing, documented effect: none
                     if (name_taken(w, n, -1)) return false;
                 } else {
-                    old = "NOPE";
+                    old = absent_old_name();
                     if (name_taken(w, n, -1)) return false;
                 }
                 if (dry) return true;
@@ -998,7 +1022,7 @@ struct GraphSys {
                     if (check)
                         fail(w, hist, opi, stale ? "rawdep-stale" : "rawdep-other",
                              {{"holder", jstr("rawcell")}, {"old_kind", jstr(oraw ? "raw" : "cell")}, {"new_kind", jstr(nraw ? "raw" : "cell")}, {"same_name", jbool(same_name)}, {"old_in_library", jbool(was_member)}},
-                             "after replace_cell('" + w.objs[old].name + "' -> " + POOLNAME[op.b] + ") the dependencies of raw cell '" + w.objs[m].name + "' still designate the replaced-out raw cell (RawCell::dependencies is not rewritten)",
+                             "after replace_cell('" + w.objs[old].name + "' -> " + POOLNAME_()[op.b] + ") the dependencies of raw cell '" + w.objs[m].name + "' still designate the replaced-out raw cell (RawCell::dependencies is not rewritten)",
                              !(known && stale));
                     if (!(known && stale)) { w.bad = true; return true; }
                     w.objs[m].refs.clear();
@@ -1233,6 +1257,7 @@ static void write_raw_files() {
     }
     write(F_RAW3, {simple("R3", 9)});
     write(F_RAW32, {simple("R3", 9), simple("R2", 6)});
+    write(F_RAW6, {simple("ABCDE", 9), simple("AB", 6)});
 }
 
 int main(int argc, char** argv) {
@@ -1242,6 +1267,7 @@ int main(int argc, char** argv) {
     F_RAW12 = run.scratch + "/raw12.gds";
     F_RAW3 = run.scratch + "/raw3.gds";
     F_RAW32 = run.scratch + "/raw32.gds";
+    F_RAW6 = run.scratch + "/raw6.gds";
     write_raw_files();
     if (run.replaying()) {
         std::string sub = run.rarg("sub");
@@ -1252,7 +1278,7 @@ int main(int argc, char** argv) {
         return run.finish();
     }
     if (getenv("C16_BENCH")) {
-        for (int k = 0; k < 6; k++) {
+        for (int k = 0; k < 7; k++) {
             GraphSys s(k);
             double t0 = now();
             for (int i = 0; i < 2000; i++) { World* w = s.make_world(); s.destroy_world(w); }
@@ -1267,8 +1293,10 @@ int main(int argc, char** argv) {
     }
     bool T = run.thorough();
     int depth = T ? 5 : 3;
-    if (getenv("C16_DEPTH")) depth = atoi(getenv("C16_DEPTH"));
-    run.note(fmt("alphabet: %d operations per state (disabled ones are skipped); depth %d from each of 6 initial libraries", GraphSys(0).nops(), depth));
+    int depth6 = T ? 4 : 2;  // init6 (prefix-related names): string-comparison slips show at depth 1-2; quick stays cheap
+    if (getenv("C16_DEPTH")) depth = depth6 = atoi(getenv("C16_DEPTH"));
+    if (getenv("C16_DEPTH6")) depth6 = atoi(getenv("C16_DEPTH6"));
+    run.note(fmt("alphabet: %d operations per state (disabled ones are skipped); depth %d from each of 6 initial libraries, depth %d from the prefix-name library init6", GraphSys(0).nops(), depth, depth6));
     // Scheduling only (no effect on what a completed bound means): the searches run smallest first.
     // WEIGHT = measured relative cost of a depth-5 search (transitions, init5 = 1); one more level
     // costs about GROWTH times the levels before it.  A level that is cut by the deadline is lost
@@ -1276,24 +1304,27 @@ int main(int argc, char** argv) {
     // on the searches already finished in this run) whether the requested depth fits into the time
     // that remains after reserving one level less for every search still to come; if it does not,
     // the depth of this search is lowered and the bound that is reported says so.
-    const int order[6] = {5, 2, 4, 0, 3, 1};
-    const double WEIGHT[6] = {9.2, 15.5, 3.1, 8.6, 4.6, 1.0};  // indexed by init (init1: extrapolated from depth 4)
+    const int NI = 7;
+    const int order[NI] = {6, 5, 2, 4, 0, 3, 1};
+    const double WEIGHT[NI] = {9.2, 18.0, 3.1, 8.6, 4.6, 1.0, 10.6};  // indexed by init (init6: extrapolated from depth 4)
+    auto req = [&](int init) { return init == 6 ? depth6 : depth; };
     const double GROWTH = 7.0;
     double rate = 0, done_weight = 0, done_time = 0;  // seconds per weight unit
-    for (int n = 0; n < 6; n++) {
+    for (int n = 0; n < NI; n++) {
         int k = order[n];
         GraphSys s(k);
         double saved = run.deadline_s;
-        int d = depth;
+        const int depth_k = req(k);
+        int d = depth_k;
         double avail = saved - run.elapsed();
         if (rate > 0) {
             auto cost = [&](int init, int dd) { return WEIGHT[init] * rate * pow(GROWTH, dd - 5); };
             double reserve = 0;
-            for (int m = n + 1; m < 6; m++) reserve += cost(order[m], depth - 1);
+            for (int m = n + 1; m < NI; m++) reserve += cost(order[m], req(order[m]) - 1);
             while (d > 1 && cost(k, d) * 1.3 > avail - reserve) d--;
             avail = std::max(avail - reserve, cost(k, d) * 1.3);
         } else
-            avail = avail / (6 - n);
+            avail = avail / (NI - n);
         run.deadline_s = std::min(saved, run.elapsed() + avail);
         double t0 = now();
         if (T) {
@@ -1311,11 +1342,11 @@ int main(int argc, char** argv) {
             done_time += dt;
             rate = done_time / done_weight;
         }
-        run.note(fmt("%s (%s): depth completed %d (requested %d, scheduled %d), %lld states, %lld transitions, %lld histories expanded, %.1f s%s", s.sub.c_str(), GraphSys::init_name(k), r.depth_completed, depth, d,
+        run.note(fmt("%s (%s): depth completed %d (requested %d, scheduled %d), %lld states, %lld transitions, %lld histories expanded, %.1f s%s", s.sub.c_str(), GraphSys::init_name(k), r.depth_completed, depth_k, d,
                      (long long)r.states, (long long)r.transitions, (long long)r.histories, dt, r.complete ? "" : " (cut by the time slice)"));
-        if (d < depth) {
+        if (d < depth_k) {
             run.count("searches_scheduled_below_requested_depth");
-            run.note(fmt("%s: depth %d did not fit into the remaining time on this machine (predicted %.0f s, %.0f s left); depth %d was searched instead", s.sub.c_str(), depth, WEIGHT[k] * rate * 1.3, saved - run.elapsed() + dt, d));
+            run.note(fmt("%s: depth %d did not fit into the remaining time on this machine (predicted %.0f s, %.0f s left); depth %d was searched instead", s.sub.c_str(), depth_k, WEIGHT[k] * rate * pow(GROWTH, depth_k - 5) * 1.3, saved - run.elapsed() + dt, d));
         }
     }
     return run.finish();
